@@ -23,9 +23,11 @@ type Case struct {
 	Width int      `json:"width"`
 }
 
-var widths = map[string]int{"a": 1, "b": 1, " ": 1, "-": 1, "\n": 0, "宽": 2, "e\u0301": 1, "（": 2, "c": 1}
+// "\u3000" (ideographic space) is the one whitespace character that is two
+// columns wide and allows a break after it
+var widths = map[string]int{"a": 1, "b": 1, " ": 1, "-": 1, "\n": 0, "宽": 2, "e\u0301": 1, "（": 2, "c": 1, "\u3000": 2}
 
-func isWS(g string) bool     { return g == " " || g == "\n" }
+func isWS(g string) bool     { return g == " " || g == "\n" || g == "\u3000" }
 func isLetter(g string) bool { return g == "a" || g == "b" || g == "c" || g == "e\u0301" }
 
 func ctx(w, h int) vxfw.DrawContext {
@@ -129,7 +131,9 @@ func fmtLines(lines [][]lineG) string {
 func predicates(which string, c Case, lines [][]lineG) string {
 	in := c.Text
 	W := c.Width
-	desc := func() string { return fmt.Sprintf("%s scanner, text %q width %d -> %s", which, strings.Join(in, ""), W, fmtLines(lines)) }
+	desc := func() string {
+		return fmt.Sprintf("%s scanner, text %q width %d -> %s", which, strings.Join(in, ""), W, fmtLines(lines))
+	}
 	if W == 0 {
 		if len(lines) != 0 {
 			return desc() + ": lines emitted at width 0"
@@ -198,7 +202,7 @@ func predicates(which string, c Case, lines [][]lineG) string {
 		// across spaces (UAX #14 LB14: OP SP* ×)
 		glued := false
 		for k := i - 1; k >= 0; k-- {
-			if in[k] == " " {
+			if in[k] == " " || in[k] == "\u3000" {
 				continue
 			}
 			glued = in[k] == "（"
@@ -395,7 +399,7 @@ func TestExhaustive(t *testing.T) {
 		t.Skip()
 	}
 	const sub = "exhaustive"
-	alpha := []string{"a", "b", " ", "-", "\n", "宽", "e\u0301"}
+	alpha := []string{"a", "b", " ", "-", "\n", "宽", "e\u0301", "\u3000"}
 	maxLen := 6
 	if harness.Thorough() {
 		alpha = append(alpha, "（")
@@ -441,7 +445,7 @@ func TestExhaustive(t *testing.T) {
 
 func TestRandomTexts(t *testing.T) {
 	const sub = "random"
-	alpha := []string{"a", "a", "b", "c", " ", " ", "-", "\n", "宽", "e\u0301", "（"}
+	alpha := []string{"a", "a", "b", "c", " ", " ", "-", "\n", "宽", "e\u0301", "（", "\u3000"}
 	n := harness.PerShard(harness.Scale(40_000, 3_000_000))
 	harness.Check(t, sub, n, func(rt *rapid.T) Case {
 		k := rapid.IntRange(0, 200).Draw(rt, "len")
